@@ -86,3 +86,13 @@ package utils
 //@   loop 1 invariant forall j int :: (j < old(bl.count) || j >= bl.count) ==> bl.model[j] == old(bl.model[j])
 //@   loop 1 invariant forall j int :: old(bl.count) <= j && j < bl.count ==> bl.model[j] == (((b >> (old(bl.count) + count - 1 - j)) & 1) == 1)
 //@   loop 1 decreases i + 1
+
+//@ func (*BitList).GetBytes
+//@   abstract
+//@   requires#rep inv(bl)
+//@   requires bl != nil
+//@   ensures fresh(result) && len(result) == (bl.count + 7) / 8
+//@   ensures forall i int, k int :: 0 <= i && i < len(result) && 0 <= k && k < 8 ==> (((result[i] >> (7-k)) & 1) == 1) == bl.model[8*i+k]
+//@   loop 1 invariant 0 <= i && i <= len && len == (bl.count + 7) / 8 && len(result) == len && fresh(result)
+//@   loop 1 invariant forall a int, k int :: 0 <= a && a < i && 0 <= k && k < 8 ==> (((result[a] >> (7-k)) & 1) == 1) == bl.model[8*a+k]
+//@   loop 1 decreases len - i
